@@ -402,6 +402,21 @@ func (r *Run) addrOracle() {
 				r.fail("C02.aliasing", "version serial=%d shares memory with version serial=%d: %s / %s", in.Serial, r.installs[j].Serial, a.what, b.what)
 			}
 		}
+		// the rejected candidates handed to OnWatchedError are configs obtained
+		// from a callback too: a version shares nothing with them (and is never
+		// one of them)
+		for _, cb := range r.cbs {
+			if cb.Kind != "err" || cb.New == nil || cb.New == in.Ptr && cb.Enter > in.Step {
+				continue
+			}
+			if cb.New == in.Ptr {
+				r.fail("C02.aliasing", "version serial=%d IS the rejected config OnWatchedError was given at step %d (the very same struct)", in.Serial, cb.Enter)
+				continue
+			}
+			if a, b, ok := overlap(reg, regionsOf(reflect.ValueOf(cb.New))); ok {
+				r.fail("C02.aliasing", "version serial=%d shares memory with the rejected config OnWatchedError was given at step %d: %s / %s", in.Serial, cb.Enter, a.what, b.what)
+			}
+		}
 		if strings.Contains(in.FP, poisonS) || strings.Contains(in.FP, "-666") {
 			r.fail("C02.poison", "version serial=%d, installed at step %d, contains values a user wrote into an earlier config: %s", in.Serial, in.Step, in.FP)
 		}
